@@ -23,12 +23,12 @@ type Explorer struct {
 	Body                  func()
 	// Check judges one execution; it returns an outcome label and, if the execution
 	// violates the property, a failure description.
-	Check   func(e *Exec) (outcome string, fail string)
+	Check func(e *Exec) (outcome string, fail string)
 	// NoConfirm: do not re-run a failing schedule in this process (used when the process itself is the unit
 	// that is re-run: a failure that depends on the process being fresh cannot repeat inside it)
 	NoConfirm bool
 	MaxExec   int // stop after that many executions (0 = no limit); Capped tells
-	Stop    func() bool
+	Stop      func() bool
 
 	Executions int
 	Steps      int64 // scheduling decisions taken, summed over executions
